@@ -74,7 +74,7 @@ CHECKS = {
    note="Source read through the reference bus map at copy time.", ref="5/C16"),
  "C17": dict(cat="model_checking", engine="E2b",
    technique="complete one-step transition relation of the joypad (all states x all actions) against a reference matrix model",
-   text="256 button states x 4 selections x (press/release of 8 buttons, all 256 select-write values), through the Joypad API and through IO/IF; P1 & 0x3F, request and once-only reporting compared with R8. All histories of 2 (thorough 3) actions over a 20-letter alphabet from every state, judged after every action.",
+   text="256 button states x 4 selections x (press/release of 8 buttons, all 256 select-write values), through the Joypad API and through IO/IF; P1 & 0x3F, request and once-only reporting compared with R8. All histories of 2 (thorough 4) actions over a 20-letter alphabet from every state, judged after every action.",
    note="P1 bits 6-7 not judged.", ref="5/C17"),
  "C18": dict(cat="model_checking", engine="E2a+E3+E2E",
    technique="depth-bounded exhaustive enumeration of SB/SC write sequences compiled to ROM programs, captured fd 1 of jit/non-jit workers and of the real binary vs reference",
